@@ -20,18 +20,26 @@ def twin_of(case):
     t["faults"] = []
     if "base_git" in t:
         t["env"]["git"] = t.pop("base_git")
+    for k, v in (t.pop("base_env", None) or {}).items():
+        if v is None:
+            t["env"].pop(k, None)
+        else:
+            t["env"][k] = v
     t.pop("variant", None)
     return t
 
 
 def is_faulty(case):
-    return bool(case.get("faults")) or "base_git" in case or (case["env"].get("git") in _plan.GIT_HANDLED + _plan.GIT_UNHANDLED)
+    return bool(case.get("faults")) or "base_git" in case or "base_env" in case or (case["env"].get("git") in _plan.GIT_HANDLED + _plan.GIT_UNHANDLED)
 
 
 def make_faulty(plan, variant):
     p = _plan.apply_variant(plan, variant)
     if p["env"].get("git") != plan["env"].get("git"):
         p["base_git"] = plan["env"]["git"]
+    other = {k: plan["env"].get(k) for k in (variant.get("env") or {}) if k != "git" and plan["env"].get(k) != p["env"].get(k)}
+    if other:
+        p["base_env"] = other  # environment knobs this variant changed, with their twin values
     return p
 
 
@@ -77,6 +85,8 @@ def signature(vclass, detail):
         return "%s|output differs at: %s" % (vclass, re.sub(r"\d+", "N", first))
     if vclass in ("GEN_FAIL", "GEN_HANG", "HANG_UNDER_FAULT"):
         return "%s|%s|%s" % (vclass, detail.get("exc"), re.sub(r"\d+", "N", (detail.get("tb_tail") or "")[-100:]))
+    if vclass == "ENVIRONMENT_CHANGED_OUTPUT":
+        return "%s|%s|%s" % (vclass, ",".join(sorted(detail.get("env_changed", []))), detail.get("oracle_class"))
     if vclass in ("SILENT_FAULT", "HANDLED_FAULT_CHANGED_OUTPUT", "NONDETERMINISTIC_OUTPUT"):
         dl = detail.get("delivered", [])
         if vclass == "SILENT_FAULT":
@@ -136,9 +146,6 @@ def evaluate_twin(ctx, plan, want_events=False, build=True, extra_toolchain=True
     rec = {"run": plan.get("run"), "kind": "fault-free", "sim": _sim_summary(res), "violations": [], "inconclusive": None, "oracle": None}
     if want_events:
         rec["events"] = res.get("events")
-    if res["repo_writes"]:
-        rec["inconclusive"] = "tool tried to write inside the repository (denied with EROFS)"
-        return rec, res, data
     if res["hang"]:
         d = {"exc": res["exc"], "tb_tail": "", "steps": res["steps"], "step_budget": ctx.step_budget}
         rec["violations"].append({"class": "GEN_HANG", "sig": signature("GEN_HANG", d), "detail": d})
@@ -169,9 +176,6 @@ def evaluate_faulty(ctx, fplan, twin_res, twin_data, want_events=False):
     unh = delivered_unhandled(res, mode)
     rec["delivered_unhandled"] = len(unh)
     rec["delivered_handled"] = len(res["delivered"]) - len(unh)
-    if res["repo_writes"]:
-        rec["inconclusive"] = "tool tried to write inside the repository (denied with EROFS)"
-        return rec
     if res["hang"]:
         d = {"exc": res["exc"], "tb_tail": "", "steps": res["steps"], "delivered": res["delivered"]}
         rec["violations"].append({"class": "HANG_UNDER_FAULT", "sig": signature("HANG_UNDER_FAULT", d), "detail": d})
@@ -197,18 +201,68 @@ def evaluate_faulty(ctx, fplan, twin_res, twin_data, want_events=False):
             c = "SILENT_FAULT"
         elif res["delivered"]:
             c = "HANDLED_FAULT_CHANGED_OUTPUT"
+        elif fplan.get("base_env") or fplan.get("base_git"):
+            c = "ENVIRONMENT_CHANGED_OUTPUT"  # a benign environment difference, yet the header broke
         else:
             c = "NONDETERMINISTIC_OUTPUT"
-        d = {"delivered": res["delivered"], "oracle_class": v, "oracle": detail, "out_len": res["out_len"], "twin_out_len": twin_res["out_len"]}
+        d = {"delivered": res["delivered"], "oracle_class": v, "oracle": detail, "out_len": res["out_len"], "twin_out_len": twin_res["out_len"],
+             "env_changed": sorted(list((fplan.get("base_env") or {}).keys()) + (["git"] if fplan.get("base_git") else []))}
         rec["violations"].append({"class": c, "sig": signature(c, d), "detail": d})
     else:
         rec["outcome"] = "different_bytes_but_valid_header" if v is None else "escalated_" + str(v)
     return rec
 
 
+def evaluate_session(ctx, splan, want_events=False):
+    """A session: the invocations run back to back on one simulated machine (shared overlay of
+    whatever the tool wrote).  Each invocation is compared with a *fresh* run of the same
+    invocation (empty overlay): same success, and - when the bytes differ - still a header that
+    passes the build/compare oracle."""
+    invs = splan["session"]
+    outs = ctx.pool.run_session(invs, hashseed=splan.get("hashseed", 0), want_events=want_events, step_budget=ctx.step_budget, event_cap=ctx.event_cap)
+    rec = {"run": splan.get("run"), "kind": "session", "violations": [], "inconclusive": None, "steps": [], "trace_hashes": [], "harness_error": None}
+    for k, (inv, (res, data)) in enumerate(zip(invs, outs)):
+        rec["trace_hashes"].append(res["trace_hash"])
+        frec, fres, fdata = evaluate_twin(ctx, inv, build=False)
+        rec["trace_hashes"].append(fres["trace_hash"])
+        step = {"k": k, "status": res["status"], "fresh_status": fres["status"], "out_len": res["out_len"], "fresh_out_len": fres["out_len"], "overlay_files": res.get("overlay_files"), "probes": res["probes"], "steps": res["steps"]}
+        if want_events:
+            step["events"] = res.get("events")
+        rec["steps"].append(step)
+        if frec["violations"]:
+            # the fresh run itself does not complete: not a question of history
+            step["outcome"] = "fresh run fails too"
+            continue
+        d = {"invocation": k, "of": len(invs), "status": res["status"], "exc": res["exc"], "tb_tail": res["tb_tail"], "overlay_files": res.get("overlay_files"), "selection": inv["selection"]}
+        if res["hang"] or res["status"] != 0:
+            d["what"] = "hang" if res["hang"] else "non-zero status"
+            rec["violations"].append({"class": "HISTORY_DEPENDENT", "sig": "HISTORY_DEPENDENT|%s|%s" % (d["what"], res["exc"]), "detail": d})
+            break
+        if _oracle.code_lines(data) == _oracle.code_lines(fdata):
+            step["outcome"] = "same code as a fresh run"
+            continue
+        v, detail = _oracle.judge_twin(ctx.builder, ctx.tree, inv, data, extra_toolchain=False)
+        step["escalated"] = v
+        if v == "HARNESS":
+            rec["harness_error"] = detail
+            break
+        if v in ("NOT_SELF_CONTAINED", "RESULT_MISMATCH", "NOT_MULTI_TU_SAFE"):
+            # would a fresh run have passed?  (otherwise it is an ordinary violation, found elsewhere)
+            fv, _ = _oracle.judge_twin(ctx.builder, ctx.tree, inv, fdata, extra_toolchain=False)
+            if fv is None:
+                d.update({"what": "header differs from a fresh run's and fails the oracle", "oracle_class": v, "oracle": detail, "out_len": res["out_len"], "fresh_out_len": fres["out_len"]})
+                rec["violations"].append({"class": "HISTORY_DEPENDENT", "sig": "HISTORY_DEPENDENT|%s" % v, "detail": d})
+                break
+        step["outcome"] = "differs from a fresh run, still valid" if v is None else "escalated_%s" % v
+    return rec
+
+
 def evaluate_case(ctx, case, want_events=False):
     """Evaluate an arbitrary case (used by replay and by the minimiser).  Returns a dict with
     `violations` (list of {class, sig, detail}) and the trace hashes of the executions involved."""
+    if "session" in case:
+        srec = evaluate_session(ctx, case, want_events=want_events)
+        return {"twin": {"events": None}, "faulty": None, "session": srec, "violations": list(srec["violations"]), "trace_hashes": srec["trace_hashes"], "harness_error": srec.get("harness_error")}
     twin_plan = twin_of(case)
     faulty = is_faulty(case)
     # when the case is about a fault, the twin's own build verdict is not what is being asked
